@@ -65,12 +65,6 @@ def NoForge (P : Prog) (c0 : Cfg) : Prop := P.NoForge ∧ c0.NoForge
 /-- all signals waiting in any queue object (every level, open or closed) -/
 def Cfg.pending (c : Cfg) : List Sig := c.L.queues.flatMap EQueue.sigs
 
-/-- the signal an instruction carries, if it is one of the dispatch instructions -/
-def Instr.sig? : Instr → Option Sig
-  | .processSignal s | .dispatch s _ | .callH _ _ s | .kill s | .newLoop s
-  | .inputReceived s | .inputReady _ s => some s
-  | _ => none
-
 /-- the `InputReceivedSignal`s an instruction sequence is still going to hand to
 `InputThreadManager._input_received_handler`: a signal about to be dispatched, one whose dispatch has not
 got past the first handler of its class (which is that handler), and the handler invocation itself -/
@@ -173,6 +167,12 @@ def IHandler.answered (h : IHandler) (line : Str) : IHandler :=
   { h with received := true, ok := true, value := some line, cb := none }
 
 /-! ### a new request -/
+
+/-- the application state once a request of handler `ih` is recorded by `start_input_thread`: the handler is
+reset (`get_input` cleared result and value), the request is appended to the list of all requests -/
+def reqRecorded (A : AppSt) (ih : Nat) (requester : Src) (text : Str) : AppSt :=
+  { A with ihs := listSet A.ihs ih IHandler.cleared,
+           reqs := A.reqs ++ [{ ih := ih, requester := requester, text := text }] }
 
 /-- the prompt text of a blocking request: the pager's “press ENTER to continue”, or the message prompt of
 `get_user_input` -/
